@@ -578,6 +578,14 @@ func TestDecElectionID(c *fluent.GRIBIClient, t testing.TB, _ ...TestOpt) {
 			WithCurrentServerElectionID(electionID.Load(), 0).
 			AsResult(),
 	)
+
+	// The check above is also satisfied by the response to the first update, so
+	// additionally ensure that the server never reported the decremented ID.
+	for _, r := range c.Results(t) {
+		if id := r.CurrentServerElectionID; id != nil && (id.GetLow() != electionID.Load() || id.GetHigh() != 0) {
+			t.Fatalf("server reported election ID %v after a lower election ID was sent, want: %d", id, electionID.Load())
+		}
+	}
 }
 
 // TestSameElectionIDFromTwoClients is the test to start 2 clients with same election ID.
